@@ -87,6 +87,9 @@ class MapV:
             val = SymV(ex, "%s[%s]" % (self.path, ks), vty)
             val._tag = t
             ex.domain.append(z3.Or([t == d for d in ex.discr_of(b, ex.enums[b])]))
+        elif re.match(r"^[A-Za-z_][\w:]*$", vty):
+            # a plain struct value: lazily initialised symbolic object per key
+            val = SymV(ex, "%s[%s]" % (self.path, ks), vty)
         else:
             raise Unsupported("map value type %s" % vty)
         self.memo[ks] = (has, val)
@@ -355,7 +358,7 @@ def h_typeid_of(ex, name, args, path, depth, caller):
 
 def h_typeid_eq(ex, name, args, path, depth, caller):
     a, b = deref(args[0]), deref(args[1])
-    yield Outcome("return", path, z3.BoolVal(a.name == b.name))
+    yield Outcome("return", path, z3.BoolVal((a.name == b.name) != name.endswith("::ne")))
 
 
 def item_impl(ex, kind, method):
@@ -541,7 +544,7 @@ def install(ex):
     add(r"^<f64 as (Mul|Add|Sub|Div)<&f64>>::(mul|add|sub|div)$", h_f64_mul_ref)
     add(r"^<&f64 as (Mul|Add|Sub|Div)<(&)?f64>>::(mul|add|sub|div)$", h_f64_mul_ref)
     add(r"^TypeId::of::<.*>$", h_typeid_of)
-    add(r"^<TypeId as PartialEq>::eq$", h_typeid_eq)
+    add(r"^<TypeId as PartialEq>::(eq|ne)$", h_typeid_eq)
     add(r"^<dyn DataItem as DataItem>::\w+$", h_dyn_dataitem)
     add(r"^<\w+ as DataItem>::\w+$", h_static_dataitem)
     add(r"^<\(dyn Any \+ 'static\)>::downcast_ref::<.*>$", h_downcast_ref)
